@@ -73,7 +73,12 @@ func main() {
 	var vers [5]int64
 	reg := func(ni int, way int) {
 		v := int(atomic.AddInt64(&vers[ni], 1))
-		tree, err := dyntpl.Parse([]byte(src(names[ni], v)), false)
+		// the loader's buffer is reused (overwritten) after Parse has returned: a tree must own its bytes
+		lb := []byte(src(names[ni], v))
+		tree, err := dyntpl.Parse(lb, v%4 < 2)
+		for i := range lb {
+			lb[i] = '#'
+		}
 		if err != nil {
 			fmt.Printf("BAD parse %s#%d: %v\n", names[ni], v, err)
 			return
@@ -114,6 +119,7 @@ func main() {
 				rng := rand.New(rand.NewSource(*seed*77 + int64(g)))
 				objs := []*testobj.TestObject{obj(0), obj(1), obj(2), obj(3)}
 				var buf bytes.Buffer
+				var heldLive, heldCopy []byte
 				for atomic.LoadInt32(&stop) == 0 {
 					ki, ci := rng.Intn(3), rng.Intn(len(objs))
 					ctx := dyntpl.AcquireCtx()
@@ -125,13 +131,30 @@ func main() {
 					}
 					buf.Reset()
 					var err error
-					switch rng.Intn(3) {
+					var live []byte
+					switch rng.Intn(6) {
 					case 0:
 						err = dyntpl.Write(&buf, names[ki], ctx)
 					case 1:
 						err = dyntpl.WriteByID(&buf, ki, ctx)
-					default:
+					case 2:
 						err = dyntpl.WriteFallback(&buf, "missing", names[ki], ctx)
+					case 3:
+						live, err = dyntpl.Render(names[ki], ctx)
+					case 4:
+						live, err = dyntpl.RenderByID(ki, ctx)
+					default:
+						live, err = dyntpl.RenderFallback("missing", names[ki], ctx)
+					}
+					// a slice returned by an earlier Render* call is the caller's: it is read again after later renders
+					if heldLive != nil && !bytes.Equal(heldLive, heldCopy) {
+						if atomic.AddInt64(&bad, 1) <= 5 {
+							fmt.Printf("BAD result of Render* changed after a later render: %q -> %q\n", heldCopy, heldLive)
+						}
+					}
+					if live != nil {
+						buf.Write(live)
+						heldLive, heldCopy = live, append(heldCopy[:0], live...)
 					}
 					atomic.AddInt64(&renders, 1)
 					m := shape.FindSubmatch(buf.Bytes())
